@@ -18,10 +18,10 @@ Qed.
 
 (* a failing link that was not killed ends with the output name removed, or with nothing touched *)
 Lemma failed_link_shape c s0 :
-  crash c = false -> snd (link c s0) = false ->
+  crash c = false -> dir_writable c = true -> snd (link c s0) = false ->
   (exists s, fst (link c s0) = unlink s Out) \/ fst (link c s0) = s0.
 Proof.
-  intros Hc. unfold link. rewrite Hc. unfold cleanup.
+  intros Hc Hw. unfold link. rewrite Hc, Hw. unfold cleanup, unlink_w.
   destruct (stop_at c); cbn [fst snd].
   - intros _. right. reflexivity.
   - unfold on_set_size. destruct (background c).
@@ -40,10 +40,10 @@ Proof.
 Qed.
 
 Theorem failed_link_outcome c s0 :
-  prior_ok s0 -> crash c = false -> snd (link c s0) = false ->
+  prior_ok s0 -> crash c = false -> dir_writable c = true -> snd (link c s0) = false ->
   observe s0 (fst (link c s0)) = Absent \/ observe s0 (fst (link c s0)) = Untouched.
 Proof.
-  intros Hp Hc Hf. destruct (failed_link_shape c s0 Hc Hf) as [[s ->]| ->].
+  intros Hp Hc Hw Hf. destruct (failed_link_shape c s0 Hc Hw Hf) as [[s ->]| ->].
   - left. apply observe_unlinked.
   - apply observe_same. exact Hp.
 Qed.
@@ -51,7 +51,7 @@ Qed.
 Lemma create_output_names c m s s' : create_output c m s = Some s' -> exists i, names s' Out = Some i.
 Proof.
   unfold create_output. destruct (names s Out) as [i|] eqn:E.
-  - destruct (busy c); destruct m; intros H; try discriminate; injection H as <-;
+  - destruct (busy c); destruct m; try destruct (dir_writable c); intros H; try discriminate; injection H as <-;
       cbn [new_file unlink bind_name set_data names path_eqb]; rewrite ?E; eauto.
   - intros H. injection H as <-. cbn [new_file names path_eqb]. eauto.
 Qed.
@@ -80,9 +80,16 @@ Definition fs0 (present : bool) : fs :=
   {| names := fun p => match p with Out => if present then Some 7 else None | _ => None end;
      data := fun _ => Old 1; next_ino := 100 |}.
 Definition cfg_of (sh : bool) (fo : option wmode) (bg bu : bool) (st : stop) (cr : bool) : cfg :=
-  {| shared := sh; forced := fo; background := bg; busy := bu; stop_at := st; crash := cr |}.
+  {| shared := sh; forced := fo; background := bg; busy := bu; tmp := Other 0; dir_writable := true; stop_at := st; crash := cr |}.
+Definition cfg_ro (sh : bool) (fo : option wmode) (bg bu : bool) (st : stop) (cr : bool) : cfg :=
+  {| shared := sh; forced := fo; background := bg; busy := bu; tmp := Other 0; dir_writable := false; stop_at := st; crash := cr |}.
 
 Theorem killed_link_leaves_partial_file :
   observe (fs0 true) (fst (link (cfg_of false None true false InWrite true) (fs0 true))) = Changed (Fresh false) /\
   observe (fs0 false) (fst (link (cfg_of false None true false AfterSetSize true) (fs0 false))) = Changed (Fresh false).
 Proof. vm_compute. split; reflexivity. Qed.
+
+(* ... and so does a link that fails inside a directory it may not modify, when the old file itself is writable *)
+Theorem unwritable_directory_leaves_modified_file :
+  observe (fs0 true) (fst (link (cfg_ro true None true false InWrite false) (fs0 true))) = Changed (Fresh false).
+Proof. vm_compute. reflexivity. Qed.
